@@ -44,9 +44,22 @@ ALLOW = {
         "decides only which unseen-level policy applies (C10); rows with seen levels are encoded identically on both branches",
     ("formulae.terms.call.Call.eval_new_data_categoric", "set", "x"):
         "decides only which unseen-level policy applies (C10); rows with seen levels are encoded identically on both branches",
-    ("formulae.terms.terms.GroupSpecificTerm.eval_new_data", ".any", "all_zeros"):
+    ("formulae.terms.terms.GroupSpecificTerm.eval_new_data", ".any", "def:~<self.factor.eval_new_data(data)>.any(axis=1)"):
         "adds the trailing new-group block of C10; existing blocks are unchanged",
 }
+
+
+def _mask_names(text, f):
+    """replace locals that are bound once by `<their definition>` (one level), so that an allow-list key does not depend on names"""
+    import re
+    defs = {}
+    for s_ in walk_local(f.node):
+        if isinstance(s_, ast.Assign) and len(s_.targets) == 1 and isinstance(s_.targets[0], ast.Name):
+            defs.setdefault(s_.targets[0].id, []).append(unparse(s_.value))
+    for name, vals in defs.items():
+        first = vals[0]
+        text = re.sub(rf"\b{re.escape(name)}\b", f"<{first}>", text)
+    return text
 
 
 def run(prog, rep, tier):
@@ -278,6 +291,13 @@ def aggregate_obligations(prog, rep, pp, rule, restrict=None):
             count += 1
             key = (q, a.op.lstrip(".") if a.op.startswith(".") else a.op, a.arg)
             key2 = (q, a.op, a.arg)
+            # an allow-list entry may name the DEFINITION of a local (so that renaming the local changes nothing)
+            ldefs = [s_.value for s_ in walk_local(f.node) if isinstance(s_, ast.Assign) and len(s_.targets) == 1 and unparse(s_.targets[0]) == a.arg]
+            if len(ldefs) == 1:
+                kd = (q, a.op, "def:" + _mask_names(unparse(ldefs[0]), f))
+                if kd in ALLOW:
+                    obl(rep, f, a.node, rule, True, construct, "allow-listed: " + ALLOW[kd])
+                    continue
             if stateful:
                 g, where_fn = _guard_for(pp, cls, ctx, f, a.node)
                 if g is not None:
